@@ -170,6 +170,7 @@ def run(ctx):
         ('diff[1]', 2, lambda a, b: etl.diff(a, b)[1]), ('recordcomplement', 2, lambda a, b: etl.recordcomplement(a, b)),
         ('hashcomplement', 2, lambda a, b: etl.hashcomplement(a, b)), ('hashintersection', 2, lambda a, b: etl.hashintersection(a, b)),
     ], 320 if ctx.thorough() else 80)
+    util.exotic_key_cases(etl, rng, ctx, 'C08', 200 if ctx.thorough() else 50)
 
 def replay(d):
     print('replay case:', d.get('case'))
